@@ -831,9 +831,13 @@ func successor(r *gen.Rand, prev *histogram.FloatHistogram) (*histogram.FloatHis
 			nl[i].c -= float64(r.Range(1, int64(nl[i].c)))
 			how += "-bucket-decremented"
 		}
-	case perturb == 2 && len(pl) > 0:
+	case (perturb == 2 || perturb == 5) && len(pl) > 0:
 		i := r.Intn(len(pl))
 		pl = append(pl[:i:i], pl[i+1:]...)
+		how += "-bucket-removed"
+	case perturb == 6 && len(nl) > 0:
+		i := r.Intn(len(nl))
+		nl = append(nl[:i:i], nl[i+1:]...)
 		how += "-bucket-removed"
 	case perturb == 3 && cur.ZeroCount > 0:
 		cur.ZeroCount--
@@ -883,7 +887,7 @@ func main() {
 		x.arith(2, za, zb, "finding-kahanadd-zero-length-span")
 	}
 
-	nA := f.Count(300, 6000)
+	nA := f.Count(420, 6000)
 	for i := 0; i < nA; i++ {
 		r := gen.Fork(f.Seed, i)
 		var a, b *histogram.FloatHistogram
@@ -920,7 +924,7 @@ func main() {
 		x.arith(r.Intn(3), a, b, "")
 	}
 
-	nC := f.Count(90, 1500)
+	nC := f.Count(130, 1500)
 	for i := 0; i < nC; i++ {
 		r := gen.Fork(f.Seed, 1000000+i)
 		var a *histogram.FloatHistogram
@@ -932,7 +936,7 @@ func main() {
 		x.compact(a, int(r.PickI64(0, 0, 1, 2, 3, 5)))
 	}
 
-	nR := f.Count(60, 1000)
+	nR := f.Count(90, 1000)
 	for i := 0; i < nR; i++ {
 		r := gen.Fork(f.Seed, 2000000+i)
 		a := genExpAt(r, genSchema(r), r.Range(-3, 3)*16, r.Chance(1, 4))
@@ -957,7 +961,7 @@ func main() {
 		x.reduce(a, t)
 	}
 
-	nD := f.Count(220, 4500)
+	nD := f.Count(300, 4500)
 	for i := 0; i < nD; i++ {
 		r := gen.Fork(f.Seed, 3000000+i)
 		switch k := r.Intn(20); {
@@ -1031,7 +1035,7 @@ func main() {
 		}
 	}
 
-	nI := f.Count(120, 2000)
+	nI := f.Count(170, 2000)
 	for i := 0; i < nI; i++ {
 		r := gen.Fork(f.Seed, 4000000+i)
 		var fh *histogram.FloatHistogram
